@@ -9,6 +9,8 @@ pages of a real `cherrypy.Application`, and says how the (simulated) WSGI server
                 'errResp': None|OUT, 'errPage': 'absent'|'cbOk'|'cbFail'|'tmplFail', 'tb': 0|1, 'stream': 0|1,
                 'hooks': [[point 0..7, id, priority, failsafe 0|1, OUT(, VIA)], ...]
                          # VIA (optional): 'c' = a Hook object in config `hooks.<point>.<n>` (default);
+                         # 'cd' = the bare callable in config (only for priority 50, not fail-safe: the documented
+                         # defaults of Hook, filled in by hooks_namespace / Hook.__init__);
                          # 't1' | 't2' | 't3' = through a cherrypy Tool of the toolbox `vt` switched on in config, the
                          # priority given by Tool(..., priority=), by `vt.<tool>.priority` in config, or by the
                          # callable's `priority` attribute; fail-safe by the callable's `failsafe` attribute.
@@ -431,10 +433,14 @@ def build_app(plan):
             if via == 'c':
                 sec['hooks.%s.%d' % (POINTS[point], n)] = _cprequest.Hook(
                     _mk_hook(point, hid, out), failsafe=bool(fs), priority=prio)
+            elif via == 'cd':
+                if prio != 50 or fs:
+                    raise common.HarnessError("via 'cd' needs the default priority 50 and failsafe 0")
+                sec['hooks.%s.%d' % (POINTS[point], n)] = _mk_hook(point, hid, out)
         for n, hk in enumerate(pg['hooks']):
             point, hid, prio, fs, out = hk[:5]
             via = hk[5] if len(hk) > 5 else 'c'
-            if via == 'c':
+            if via in ('c', 'cd'):
                 continue
             cb = _mk_hook(point, hid, out)
             if fs:
@@ -570,7 +576,8 @@ def plan_line(plan):
     out = [' '.join(head)]
     for pg in plan['pages']:
         h = pg['handler']
-        eff = [x for x in pg['hooks'] if len(x) < 6 or x[5] == 'c'] + [x for x in pg['hooks'] if len(x) > 5 and x[5] != 'c']
+        eff = ([x for x in pg['hooks'] if len(x) < 6 or x[5] in ('c', 'cd')]
+               + [x for x in pg['hooks'] if len(x) > 5 and x[5] not in ('c', 'cd')])
         hooks = ','.join('%d.%d.%d.%d.%s' % tuple(x[:5]) for x in eff) or '-'
         out.append(' '.join([pg['dispatch'], pg['ns'], pg['body'], '%s/%s/%s' % (h[0], h[1], opt(h[2])),
                              opt(pg['errResp']), pg['errPage'], str(pg['tb']), str(pg['stream']), hooks]))
@@ -665,9 +672,12 @@ def gen_page(rng, npages, nid, focus=None, rare=0.06):
             n = rng.choice([0, 0, 1, 1, 2, 3, 5])
         for _ in range(n):
             nid[0] += 1
-            hooks.append([p, nid[0], rng.choice(PRIOS), rng.choice([0, 1]),
-                          gen_out(rng, npages, weights=(55, 22, 8, 8, 7) if p == focus else (72, 12, 5, 5, 6)),
-                          rng.choices(['c', 't1', 't2', 't3'], weights=[70, 10, 10, 10])[0]])
+            hk = [p, nid[0], rng.choice(PRIOS), rng.choice([0, 1]),
+                  gen_out(rng, npages, weights=(55, 22, 8, 8, 7) if p == focus else (72, 12, 5, 5, 6)),
+                  rng.choices(['c', 't1', 't2', 't3'], weights=[70, 10, 10, 10])[0]]
+            if hk[2] == 50 and hk[3] == 0 and hk[5] == 'c' and rng.random() < 0.5:
+                hk[5] = 'cd'
+            hooks.append(hk)
     rng.shuffle(hooks)
     return {
         'dispatch': gen_out(rng, npages, (30, 30, 15, 10, 15)) if rng.random() < rare else 'ok',
